@@ -56,6 +56,15 @@ func (a *API) Do(method, path string, query url.Values, body any) (int, []byte) 
 	return rec.Code, rec.Body.Bytes()
 }
 
+// DoRaw issues a request with the valid token and the given bytes as body (which need not be valid JSON)
+func (a *API) DoRaw(method, path string, body []byte) (int, []byte) {
+	req := httptest.NewRequest(method, path, bytes.NewReader(body))
+	req.Header.Set("Authorization", "Bearer "+a.Token)
+	rec := httptest.NewRecorder()
+	a.H.ServeHTTP(rec, req)
+	return rec.Code, rec.Body.Bytes()
+}
+
 // APITask mirrors the JSON of a task in the API
 type APITask struct {
 	Name      string     `json:"name"`
